@@ -87,3 +87,13 @@ Definition mkscase r a b c : scase := {| sc_rep := r; sc_numpy := a; sc_data := 
 Fixpoint pat_from (a b : N) (n : nat) (i : N) : list N :=
   match n with O => [] | S k => (a * i + b) mod 256 :: pat_from a b k (N.succ i) end.
 Definition pat (a b len : N) : list N := pat_from a b (N.to_nat len) 0.
+
+(* direct stream for the functions translated from _type_casting.py: (which, input bytes, prod dims, observed) *)
+Definition tc_agree (c : N * list N * N * list N) : bool :=
+  let '(k, data, n, out) := c in
+  nl_eqb (if k =? 0 then pack_4bitx2 data else if k =? 1 then unpack_4bitx2 data (N.to_nat n)
+          else if k =? 2 then pack_2bitx4 data else unpack_2bitx4 data (N.to_nat n)) out.
+(* nbytes of a declared (never materialised) shape, float arithmetic included: (dtype, shape, observed) *)
+Definition nb_agree (c : N * list N * N) : bool :=
+  let '(dt, shape, obs) := c in
+  match bitwidth dt with Some bw => nbytes_code bw (shape_size shape) =? obs | None => false end.
